@@ -11,6 +11,11 @@ func (k Keeper) DepositCollateral(ctx sdk.Context, from sdk.AccAddress, amount s
 	provider, found := k.GetProvider(ctx, from)
 	if !found {
 		provider = k.addProvider(ctx, from)
+	} else {
+		// A slash changes what the delegations are worth without any staking hook:
+		// bring the recorded stake up to date before accepting more collateral against it.
+		k.UpdateDelegationAmount(ctx, from)
+		provider, _ = k.GetProvider(ctx, from)
 	}
 	// Check if there are enough delegations backing collaterals.
 	if provider.DelegationBonded.LT(provider.Collateral.Add(amount).Sub(provider.Withdrawing)) {
